@@ -84,6 +84,28 @@ def st_case(draw):
         variants = [draw(st_variant(t, base["targets"], numbered))
                     for _ in range(nvar)]
         groups.append({"base": t, "variants": variants})
+    # unrelated terms: same tensor multiset, different connectivity (the
+    # contracted labels are permuted over the contracted slots of a class)
+    for g in list(groups):
+        if draw(st.integers(0, 2)) != 0:
+            continue
+        t = copy.deepcopy(g["base"])
+        slots = {}
+        for oi, o in enumerate(t["objs"]):
+            for grp in ("u", "l"):
+                for pos, lbl in enumerate(o.get(grp, [])):
+                    if lbl not in base["targets"]:
+                        slots.setdefault((label_class(lbl), o["exp"]),
+                                         []).append((oi, grp, pos, lbl))
+        for c, lst in sorted(slots.items()):
+            if len(lst) < 3:
+                continue
+            perm = draw(st.permutations(range(len(lst))))
+            for (oi, grp, pos, _), k in zip(lst, perm):
+                t["objs"][oi][grp][pos] = lst[k][3]
+        t["pref"] = [draw(st.sampled_from([1, -1, 2])) * t["pref"][0],
+                     t["pref"][1]]
+        groups.append({"base": t, "variants": [], "rewired": True})
     real = draw(st.booleans())
     # bra-ket assumptions for tensors that carry none and are square
     names = {}
@@ -174,6 +196,8 @@ def run_case(case):
         r.cls("general_index")
     if case.get("real"):
         r.cls("real")
+    if any(g.get("rewired") for g in case["groups"]):
+        r.cls("rewired_term")
     if case.get("sym_tensors") or case.get("antisym_tensors"):
         r.cls("braket_assumption")
     multisets = []
